@@ -632,8 +632,11 @@ FAM2_XSD = ('<xs:schema xmlns:xs="http://www.w3.org/2001/XMLSchema" xmlns:t="urn
             '<xs:element name="note" type="xs:string" minOccurs="0"/></xs:sequence></xs:complexType></xs:element>'
             '<xs:element name="order2"><xs:complexType><xs:sequence><xs:element name="id" type="xs:string"/><xs:sequence minOccurs="0"><xs:element name="street" type="xs:string"/>'
             '<xs:element name="city" type="xs:string"/><xs:element name="zip" type="xs:string" minOccurs="0"/></xs:sequence></xs:sequence></xs:complexType></xs:element>'
+            '<xs:complexType name="Marker"/><xs:complexType name="Marker2"><xs:sequence/></xs:complexType>'
+            '<xs:element name="pay5"><xs:complexType><xs:sequence><xs:element name="amount" type="xs:int"/><xs:choice><xs:element name="card" type="xs:string"/>'
+            '<xs:element name="cash" type="t:Marker"/><xs:element name="barter" type="t:Marker2"/></xs:choice></xs:sequence></xs:complexType></xs:element>'
             + "".join('<xs:element name="w_%s"><xs:complexType><xs:sequence><xs:element ref="t:%s"/></xs:sequence></xs:complexType></xs:element>' % (n, n)
-                      for n in ("pay3", "pay4", "order", "order2")) +
+                      for n in ("pay3", "pay4", "pay5", "order", "order2")) +
             '</xs:schema>')
 BRANCHES = ["card", "iban", "voucher", "cash"]
 
@@ -669,6 +672,13 @@ def hand_cases2(ctx, res):
         expect = "ok" if present[0] and present[1] else ("refuse" if any(present) else "either")
         for conv in ("kw", "dict"):
             calls.append(("order2", conv, kw, expect, "optional nested sequence (two required members) " + repr(present)))
+    # a branch that is a marker element (a type without fields), selected with a pre-built value object
+    for mk, mty in (("cash", "Marker"), ("barter", "Marker2")):
+        marker = zs.get_type("{urn:fam}" + mty)()
+        for conv in ("kw", "dict"):
+            calls.append(("pay5", conv, {"amount": 5, mk: marker}, "ok-marker:" + mk, "marker branch %s given as a value object" % mk))
+            calls.append(("pay5", conv, {"amount": 5, "card": "CARD", mk: marker}, "refuse", "marker branch %s (value object) beside another branch" % mk))
+            calls.append(("pay5", conv, {"amount": 5, "card": None, mk: marker}, "ok-marker:" + mk, "marker branch %s, the other branch None" % mk))
     for name, conv, kw, expect, what in calls:
         res.case(key=("hand2", name, conv, repr(kw)), nontrivial=True)
         res.count("hand-written:" + ("choice-branches" if name.startswith("pay") else "optional-nested-sequence"))
@@ -685,6 +695,13 @@ def hand_cases2(ctx, res):
             emitted = etree.tostring(parent[0]).decode()
         except Exception as ex:  # noqa
             out, emitted = type(ex).__name__, str(ex)[:100]
+        if expect.startswith("ok-marker:"):
+            mk = expect.split(":")[1]
+            if out != "ok":
+                res.failures.append(dict(what="a conforming call is refused (%s): %s %s" % (what, out, emitted), case=case))
+            elif (":%s/>" % mk) not in emitted and ("<%s/>" % mk) not in emitted and (":%s>" % mk) not in emitted:
+                res.failures.append(dict(what="the selected marker branch is silently left out of the XML (%s): %s" % (what, emitted[:300]), case=case))
+            continue
         if expect == "ok" and out != "ok":
             res.failures.append(dict(what="a conforming call is refused (%s): %s %s" % (what, out, emitted), case=case))
         elif expect == "refuse" and out == "ok":
@@ -695,12 +712,96 @@ def hand_cases2(ctx, res):
                 res.failures.append(dict(what="supplied argument(s) %s silently left out of the XML (%s): %s" % (lost, what, emitted[:300]), case=case))
 
 
+EDIT_WSDL = """<?xml version="1.0"?>
+<definitions xmlns="http://schemas.xmlsoap.org/wsdl/" xmlns:soap="http://schemas.xmlsoap.org/wsdl/soap/"
+  xmlns:xsd="http://www.w3.org/2001/XMLSchema" xmlns:tns="urn:ed" targetNamespace="urn:ed">
+  <types><xsd:schema targetNamespace="urn:ed" elementFormDefault="qualified" xmlns:tns="urn:ed">
+    <xsd:complexType name="Addr"><xsd:sequence><xsd:element name="street" type="xsd:string"/><xsd:element name="zip" type="xsd:string" minOccurs="0"/></xsd:sequence></xsd:complexType>
+    <xsd:complexType name="Line"><xsd:sequence><xsd:element name="sku" type="xsd:string"/><xsd:element name="qty" type="xsd:int"/></xsd:sequence></xsd:complexType>
+    <xsd:element name="order"><xsd:complexType><xsd:sequence><xsd:element name="id" type="xsd:string"/><xsd:element name="addr" type="tns:Addr"/>
+      <xsd:element name="line" type="tns:Line" maxOccurs="3"/></xsd:sequence></xsd:complexType></xsd:element>
+    <xsd:element name="ack" type="xsd:string"/></xsd:schema></types>
+  <message name="mi"><part name="p" element="tns:order"/></message><message name="mo"><part name="p" element="tns:ack"/></message>
+  <portType name="pt"><operation name="order"><input message="tns:mi"/><output message="tns:mo"/></operation></portType>
+  <binding name="b" type="tns:pt"><soap:binding style="document" transport="http://schemas.xmlsoap.org/soap/http"/>
+    <operation name="order"><soap:operation soapAction="o"/><input><soap:body use="literal"/></input><output><soap:body use="literal"/></output></operation></binding>
+  <service name="svc"><port name="p" binding="tns:b"><soap:address location="http://h.example/s"/></port></service>
+</definitions>"""
+
+
+def inplace_edit_history(ctx, res):
+    """a caller that keeps ONE argument structure and edits it in place between calls of the same operation (polling / retry
+    code does): every call is bound from the arguments as they are at that moment - a corruption introduced by an edit is
+    refused, a changed value is what goes out"""
+    import io
+    import zeep
+    import zeep.transports
+    import requests
+    sent = []
+
+    class T(zeep.transports.Transport):
+        def post(self, address, message, headers):
+            sent.append(message)
+            r = requests.Response()
+            r.status_code = 200
+            r.headers["Content-Type"] = "text/xml"
+            r.encoding = "utf-8"
+            r._content = b'<e:Envelope xmlns:e="http://schemas.xmlsoap.org/soap/envelope/"><e:Body><ack xmlns="urn:ed">ok</ack></e:Body></e:Envelope>'
+            return r
+
+    def body_of(message):
+        return xmlcanon.node(etree.fromstring(message).find("{http://schemas.xmlsoap.org/soap/envelope/}Body"), strip_ws=True)
+    for form in ("kwargs", "positional"):
+        client = zeep.Client(io.BytesIO(EDIT_WSDL.encode()), transport=T())
+        addr = {"street": "Main St", "zip": "1000"}
+        lines = [{"sku": "a", "qty": 1}]
+        steps = [("valid", lambda: None, "ok"),
+                 ("value changed in place", lambda: addr.__setitem__("street", "Side St"), "ok"),
+                 ("unknown key added in place", lambda: addr.__setitem__("zz_unknown", 1), "refuse"),
+                 ("unknown key removed again", lambda: addr.pop("zz_unknown"), "ok"),
+                 ("required member deleted in place", lambda: addr.pop("street"), "refuse"),
+                 ("required member restored", lambda: addr.__setitem__("street", "Back St"), "ok"),
+                 ("list grown past maxOccurs in place", lambda: lines.extend([{"sku": "b", "qty": 2}, {"sku": "c", "qty": 3}, {"sku": "d", "qty": 4}]), "refuse"),
+                 ("list cut back in place", lambda: lines.__delitem__(slice(2, None)), "ok"),
+                 ("misspelt key inside a list item", lambda: lines[1].__setitem__("qtty", lines[1].pop("qty")), "refuse")]
+        for i, (what, edit, expect) in enumerate(steps):
+            edit()
+            res.case(key=("inplace-edit", form, i), nontrivial=True)
+            res.count("inplace-edit-history")
+            case = dict(kind="inplace-edit", form=form, step=i, what=what, addr=repr(addr), lines=repr(lines))
+            del sent[:]
+            try:
+                if form == "kwargs":
+                    client.service.order(id="7", addr=addr, line=lines)
+                else:
+                    client.service.order("7", addr, lines)
+                out = "ok"
+            except Exception as e:  # noqa
+                out = type(e).__name__
+            if expect == "refuse" and out == "ok":
+                res.failures.append(dict(what="step %d (%s): the arguments as edited in place are corrupt, but a request was sent: %s"
+                                         % (i, what, sent[0].decode()[:400] if sent else ""), case=case))
+                break
+            if expect == "ok":
+                if out != "ok":
+                    res.failures.append(dict(what="step %d (%s): a conforming call is refused with %s" % (i, what, out), case=case))
+                    break
+                fresh_sent = list(sent)
+                del sent[:]
+                fresh = zeep.Client(io.BytesIO(EDIT_WSDL.encode()), transport=T())
+                fresh.service.order(id="7", addr=copy.deepcopy(addr), line=copy.deepcopy(lines))
+                if body_of(fresh_sent[0]) != body_of(sent[0]):
+                    res.failures.append(dict(what="step %d (%s): the request does not carry the arguments as they are now: %s" % (i, what, fresh_sent[0].decode()[:400]), case=case))
+                    break
+
+
 def run(ctx):
     import logging
     logging.getLogger("zeep").setLevel(logging.CRITICAL)
     res = Result()
     pending = []
     hand_cases(ctx, res)
+    inplace_edit_history(ctx, res)
     hand_cases2(ctx, res)
     kwtie.kw_tie(ctx, res, ctx.model.run if ctx.model else None)
     n = ctx.n(120, 2000)
@@ -741,6 +842,10 @@ def replay(ctx, payload):
         exp = kwtie.kw_expect(items, c["attrs"], kw)
         ok = out == exp and (out == "refuse" or all(got.get(k) == v for k, v in kw if not (v is None or v == [])))
         return ok, "keyword call %s (expected %s): %r" % (out, exp, got)
+    if payload.get("case", payload).get("kind") == "inplace-edit":
+        r = Result()
+        inplace_edit_history(ctx, r)
+        return (not r.failures), (r.failures[0]["what"] if r.failures else "holds")
     if payload.get("case", payload).get("kind") == "hand2":
         r = Result()
         hand_cases2(ctx, r)
